@@ -35,6 +35,18 @@ Oracle, per case (one fresh build of the stack `s`, snapshot, c1 = serialize(s),
                   second), the caller's list is unchanged, and c1, c2 are equal (hash and structure). A hash
                   difference is reported only when no mutation was seen (otherwise it is its consequence).
 
+  (I) formatting : what a caller's logging / debugger does with the values it holds is not an operation on them. Between two
+                  serialisations every reachable object is formatted BY ITSELF (the list, each value, each tuple item, the
+                  code slice / control data / nested continuations of a continuation, the cells below a cell, slice or builder) -
+                  round 1 exactly once (core.look: one str + one repr), round 2 repeatedly (core.describe: repr, ascii, str,
+                  format, f-string, %-formatting, bool); after each round the values deep-equal the snapshot and serialise to
+                  c1. Parse side: c1 is formatted once and parsed, every parsed value and c1 are formatted repeatedly: the values
+                  read as from the unformatted cell, serialise to c1 (where clause E applies) and a further parse agrees.
+                  `formatting-is-not-an-operation/<printed-once|printed-repeatedly|cell-printed-..|parsed-values-printed>/<class>`
+  Further history clauses (each only when everything before held): (D) value changed by the caller between two calls, (E)
+  parsed stack serialised again, (F) parsed values used / edited then the cell parsed again, (G) stack behind a consumed
+  prefix, (H) a refused serialize leaves the values intact.
+
 Attribution of continuation read-back failures: `VmCont.deserialize` is probed with the 36-bit slice
 '1000' + int32(5) (vmc_quit); when that does not give exit_code 5 the reader demonstrably does not skip the
 constructor tag, and every read-back difference/exception located in a continuation kind that has inline data after
@@ -44,7 +56,7 @@ vmc_quit_exc; what still fails then is reported separately.
 
 Not asserted / excluded:
   * vm_stk_nan and the library's private `bytes` branch ('0200' + bytes): not among the statement's supported values.
-  * `type_` of VmControlData, object identity of results, the particular VmCellSlice window the writer picks
+  * the text any formatting produces; `type_` of VmControlData, object identity of results, the particular VmCellSlice window the writer picks
     (st_bits/st_ref may be anything that denotes the remaining content), the dictionary label forms of the save list.
   * Values that cannot be laid out by the schema (a VmStackValue needing more than 3 references next to the `rest`
     reference, > 4 in a tuple entry/dictionary leaf, or > 1023 bits) are not generated: the generator degrades them
@@ -71,6 +83,9 @@ RULE = ('case = a stack (list, bottom first) of value specs: null, int (decimal 
         'quick, <= 300 thorough; ints at +-2^63 and +-2^256 +-2. enumerated sub-check: every boundary int, tuple '
         'length 0..8 x nesting 1..4, every continuation kind x control-data variant, depth ladder, one stack holding '
         'all boundary ints. '
+        'every case also carries the histories: serialise twice; values / cell / parsed values formatted (str, repr, format, '
+        'f-string, bool of EACH reachable object by itself, once and repeatedly) between two uses; parsed values used and edited '
+        'then parsed again; a value changed between two calls; a refused call; the stack behind a consumed prefix. '
         'non-trivial = contains a tuple of length >= 2, a continuation, or an int within 1 of a form boundary '
         '(+-2^63, range ends); distinct = distinct case')
 ASSUMPTIONS = ['harness/ref/refvmstack.py: independent VmStack/VmCont/HashmapE decoder over (bits, refs) trees, '
@@ -675,6 +690,36 @@ def _all_failures(case):
             fails.append(Fail(_consumed_sig(m) + '/second-call', f'after the second call, {m.path}: {m.detail}'))
         if not mutated and (c1.hash != c2.hash or rv.to_tree(c1) != rv.to_tree(c2)):
             fails.append(Fail('twice/cell-differs', f'{c1.hash.hex()} != {c2.hash.hex()} with unmodified inputs'))
+    # (I) formatting is not an operation: the caller prints / logs what it holds between two uses - every value of the stack BY
+    # ITSELF (the slice in a tuple, the code slice and the control data of a continuation, the cells below a cell: str(x) of a
+    # nested value is not what repr(stack) runs), then the list. Round 1 formats each object exactly once (one str + one repr),
+    # round 2 with the whole repertoire (repr, ascii, str, format, f-string, %-formatting, bool). After each round the values
+    # deep-equal their snapshot and the stack serialises to the same cell.
+    if not fails and not mutated:
+        from harness.core import describe, look
+        for rnd, fmt in (('printed-once', look), ('printed-repeatedly', describe)):
+            for o in _reachable(held):
+                fmt(o)
+            if fmt is describe:
+                describe(s)
+            ms = diff([norm(x) for x in held], snap)
+            if len(s) != len(held) or any(a is not b for a, b in zip(s, held)):
+                fails.append(Fail(f'formatting-is-not-an-operation/{rnd}/stack-list', f'the caller\'s list changed: {len(held)} -> {len(s)} elements'))
+            for m in ms:
+                fails.append(Fail(f'formatting-is-not-an-operation/{rnd}/{m.cls}', f'the caller formatted its values ({rnd}); now {m.path}: {m.detail}'))
+                break
+            if fails:
+                mutated = True
+                break
+            ok, c3 = call(VmStack.serialize, s)
+            if not ok:
+                fails.append(Fail(f'formatting-is-not-an-operation/{rnd}/serialize-raises/{exc_sig(c3)}', repr(c3)))
+            elif c3.hash != c1.hash or rv.to_tree(c3) != rv.to_tree(c1):
+                fails.append(Fail(f'formatting-is-not-an-operation/{rnd}/cell-differs', f'the caller formatted its values ({rnd}); the stack now '
+                                  f'serialises to {c3.hash.hex()} instead of {c1.hash.hex()}'))
+            if fails:
+                mutated = True
+                break
     # (F) parsed values are independent of the cell they were parsed from: reading from a parsed slice / storing into a parsed
     # builder does not change the serialised stack (second parse equals the first reading; the bytes of the cell are unchanged)
     if not fails and not mutated:
@@ -745,6 +790,46 @@ def _all_failures(case):
                 fails.append(Fail(f'reserialize-parsed/raises/{exc_sig(c4)}', f'VmStack.serialize(VmStack.deserialize(cell)) raised {c4!r}'))
             elif c4.hash != c1.hash:
                 fails.append(Fail('reserialize-parsed/cell-differs', 'serialising the parsed stack gives another cell'))
+    # (I') the same on the parse side: the caller prints the cell it is about to parse (once), parses, prints every value it got
+    # (repeatedly) and the cell again; the values read as clause (A) found them from the unprinted cell, a later parse gives the same values,
+    # and (where clause E applies) the printed values serialise to the same cell
+    if not fails and not mutated:
+        from harness.core import describe, look
+        if True:
+            # clause (A) held, so the unformatted cell reads as what the independent decoder read from it
+            reading0 = [plain(x) for x in decoded] if decoded is not None else want
+            look(c1)
+            okp, backp = call(VmStack.deserialize, c1.begin_parse())
+            if not okp:
+                fails.append(Fail(f'formatting-is-not-an-operation/cell-printed-once/parse-raises/{exc_sig(backp)}', repr(backp)))
+            else:
+                for m in diff([norm(x) for x in backp], reading0):
+                    fails.append(Fail(f'formatting-is-not-an-operation/cell-printed-once/{m.cls}', f'the stack cell was formatted, then parsed: {m.path}: {m.detail}'))
+                    break
+            if not fails:
+                for o in _reachable(backp):
+                    describe(o)
+                describe(backp, c1)
+                for m in diff([norm(x) for x in backp], reading0):
+                    fails.append(Fail(f'formatting-is-not-an-operation/parsed-values-printed/{m.cls}', f'the parsed values were formatted and now read '
+                                      f'{m.path}: {m.detail}'))
+                    break
+            if not fails and not any(_uses_cdata_containers(v) for v in specs):
+                ok, c6 = call(VmStack.serialize, backp)
+                if not ok:
+                    fails.append(Fail(f'formatting-is-not-an-operation/parsed-values-printed/serialize-raises/{exc_sig(c6)}', repr(c6)))
+                elif c6.hash != c1.hash:
+                    fails.append(Fail('formatting-is-not-an-operation/parsed-values-printed/serialise-to-another-cell', ''))
+            if not fails:
+                okq, backq = call(VmStack.deserialize, c1.begin_parse())
+                if not okq:
+                    fails.append(Fail(f'formatting-is-not-an-operation/cell-printed-repeatedly/parse-raises/{exc_sig(backq)}', repr(backq)))
+                else:
+                    for m in diff([norm(x) for x in backq], reading0):
+                        fails.append(Fail(f'formatting-is-not-an-operation/cell-printed-repeatedly/{m.cls}', f'{m.path}: {m.detail}'))
+                        break
+            if fails:
+                mutated = True
     # (H) "the caller's values are left unmodified" - also by a call that is refused half-way: an integer outside the 257-bit
     # range sits in the middle of the stack and in the middle of the innermost tuple; whatever serialize raises, the caller's
     # list and tuples are what they were, and once the entry is repaired the stack serialises to exactly the repaired values
@@ -830,6 +915,36 @@ def _all_failures(case):
                                           f'{m.path}: {m.detail}'))
                         break
     return _dedupe(fails)
+
+
+def _reachable(roots, cap=400):
+    """every object a caller holds through `roots`, each once, outermost first: list items, the attributes of tuples,
+    continuations and control data, the items of their lists / dict values, the reference cells below a cell / slice / builder"""
+    out, seen = [], set()
+
+    def walk(o, depth):
+        if o is None or isinstance(o, (int, str, bytes, bytearray, float)) or id(o) in seen or depth > 16 or len(out) >= cap:
+            return
+        seen.add(id(o))
+        out.append(o)                                    # keeps o alive, so ids stay unique within this call
+        if isinstance(o, (list, tuple)):
+            for x in o:
+                walk(x, depth + 1)
+        elif isinstance(o, dict):
+            for x in o.values():
+                walk(x, depth + 1)
+        elif type(o).__name__ in ('Cell', 'Slice', 'Builder'):
+            for r in list(getattr(o, 'refs', []) or []):
+                walk(r, depth + 1)
+        elif (type(o).__module__ or '').startswith('pytoniq_core'):
+            d = getattr(o, '__dict__', None)
+            if isinstance(d, dict):
+                for x in list(d.values()):
+                    walk(x, depth + 1)
+
+    for r in roots:
+        walk(r, 0)
+    return out
 
 
 def _uses_cdata_containers(v):
@@ -1352,3 +1467,9 @@ SUBCHECKS = [
         nontrivial=lambda c: True, n=(600, 20000), shards=(4, 16),
         note='VmCellSlice values whose window is a proper part of the cell (hand-assembled stack cells): parse, re-parse, re-serialise'),
 ]
+
+
+# the same generated cases, several at a time, checked by threads that run at the same time (core.run_overlapping): per-call state
+# kept in a place two calls share shows only there
+for _b, _n in (('random-stacks', 'two-threads-stacks'), ('random-continuations', 'two-threads-continuations')):
+    SUBCHECKS.append(__import__('harness.core', fromlist=['overlapped']).overlapped(next(s for s in SUBCHECKS if s.name == _b), name=_n, k=3, n=(30, 1000)))
